@@ -54,7 +54,7 @@ pub fn rand_site(r: &mut Rng, max_lat: i64, zone_h: i64) -> Site {
         1 => *r_pick(r, &[-420, 8848]),
         _ => r.range(-100, 4000),
     };
-    Site { lat, lon, el, gmt }
+    Site { dlat: 0, lat, lon, el, gmt }
 }
 
 fn rand_weather(r: &mut Rng) -> Option<(i64, i64)> {
@@ -87,6 +87,7 @@ fn custom_angles(r: &mut Rng, p: &mut P) {
 
 pub fn gen_c05(args: &Args) {
     let seed = args.num("seed", 1) as u64;
+    session_start(seed);
     let n = args.num("n", 6000);
     let mut r = Rng::new(seed ^ 0xC05);
     let mut w = TraceWriter::create(&args.str("out", "c05.ndjson"));
@@ -106,8 +107,36 @@ pub fn gen_c05(args: &Args) {
         let a = call(&site, date, &pn);
         w.emit(merge(&[base_event("c05", &site, date, &p), json!({"out": o.out, "r": res_json(&o), "a": res_json(&a)})]));
     }
+    // boundary probes around the latitude where Fajr / Isha stop existing (policy None and the default policy)
+    let mut probes = 0;
+    let want = args.num("boundaries", 8);
+    let (mut found, mut i) = (0, 0);
+    while found < want && i < want * 20 {
+        i += 1;
+        let mut p = P::of_method(r.range(1, 6) as usize);
+        if r.chance(1, 3) {
+            custom_angles(&mut r, &mut p);
+        }
+        p.rnd = r.range(0, 3) as usize;
+        let date = probe_date(&mut r);
+        let sites: Vec<Site> = boundary_probes(&mut r, date, &p, if i % 2 == 0 { 1 } else { 6 }, 40, 3)
+            .into_iter().filter(|s| s.lat.abs() <= 600_000).collect();
+        if !sites.is_empty() {
+            found += 1;
+        }
+        for site in sites {
+            p.pol = if r.chance(1, 2) { 0 } else { 6 };
+            let o = call(&site, date, &p);
+            let mut pn = p.clone();
+            pn.pol = 0;
+            let a = call(&site, date, &pn);
+            probes += 1;
+            w.emit(merge(&[base_event("c05", &site, date, &p), json!({"out": o.out, "r": res_json(&o), "a": res_json(&a)})]));
+        }
+    }
+    let session = session_flush(&mut w);
     let k = w.finish();
-    println!("{}", json!({"events": k}));
+    println!("{}", json!({"session": session, "events": k, "boundary_probes": probes}));
 }
 
 // ------------------------------------------------------------------------------------------
@@ -115,6 +144,7 @@ pub fn gen_c05(args: &Args) {
 
 pub fn gen_c07(args: &Args) {
     let seed = args.num("seed", 1) as u64;
+    session_start(seed);
     let n = args.num("n", 20000);
     let mut r = Rng::new(seed ^ 0xC07);
     let mut w = TraceWriter::create(&args.str("out", "c07.ndjson"));
@@ -192,8 +222,9 @@ pub fn gen_c07(args: &Args) {
             json!({"out": o.out, "r": res_json(&o), "ms": ms as i64, "msg": o.msg}),
         ]));
     }
+    let session = session_flush(&mut w);
     let k = w.finish();
-    println!("{}", json!({"events": k, "slowest_ms": slowest as i64, "panics": panics}));
+    println!("{}", json!({"session": session, "events": k, "slowest_ms": slowest as i64, "panics": panics}));
 }
 
 // ------------------------------------------------------------------------------------------
@@ -215,6 +246,7 @@ pub fn twilight_edge_case(r: &mut Rng, max_lat: i64) -> (Site, NaiveDate) {
 
 pub fn gen_c08(args: &Args) {
     let seed = args.num("seed", 1) as u64;
+    session_start(seed);
     let n = args.num("n", 15000);
     let mut r = Rng::new(seed ^ 0xC08);
     let mut w = TraceWriter::create(&args.str("out", "c08.ndjson"));
@@ -247,8 +279,9 @@ pub fn gen_c08(args: &Args) {
         }
         w.emit(merge(&[base_event("c08", &site, date, &p), json!({"a": res_json(&a), "b": res_json(&b)})]));
     }
+    let session = session_flush(&mut w);
     let k = w.finish();
-    println!("{}", json!({"events": k}));
+    println!("{}", json!({"session": session, "events": k}));
 }
 
 // ------------------------------------------------------------------------------------------
@@ -256,6 +289,7 @@ pub fn gen_c08(args: &Args) {
 
 pub fn gen_c09(args: &Args) {
     let seed = args.num("seed", 1) as u64;
+    session_start(seed);
     let n = args.num("n", 2000);
     let full_years = args.num("years", 0);
     let mut r = Rng::new(seed ^ 0xC09);
@@ -267,7 +301,7 @@ pub fn gen_c09(args: &Args) {
         let y = *r_pick(&mut r, &[2023, 2024, 1900, 2000, 1600, 2399, 2100, 2020]);
         let lat = *r_pick(&mut r, &[520_000i64, 580_000, 630_000, -520_000, -580_000, -630_000, 640_000, -640_000, 490_000, -550_000]);
         let lon = r.range(-1_800_000, 1_800_000);
-        let site = Site { lat, lon, el: 0, gmt: natural_gmt(lon) };
+        let site = Site { dlat: 0, lat, lon, el: 0, gmt: natural_gmt(lon) };
         let mut p = P::of_method(angle_methods[(k as usize) % 6]);
         p.pol = if k % 3 == 0 { 5 } else { 6 };
         p.rnd = r.range(0, 3) as usize;
@@ -337,8 +371,9 @@ pub fn gen_c09(args: &Args) {
             json!({"ord": date.ordinal(), "ylen": ylen, "nb": nb, "b": res_json(&b)}),
         ]));
     }
+    let session = session_flush(&mut w);
     let k = w.finish();
-    println!("{}", json!({"events": k, "searched": searched}));
+    println!("{}", json!({"session": session, "events": k, "searched": searched}));
 }
 
 // ------------------------------------------------------------------------------------------
@@ -346,6 +381,7 @@ pub fn gen_c09(args: &Args) {
 
 pub fn gen_c10(args: &Args) {
     let seed = args.num("seed", 1) as u64;
+    session_start(seed);
     let n = args.num("n", 8000);
     let mut r = Rng::new(seed ^ 0xC10);
     let mut w = TraceWriter::create(&args.str("out", "c10.ndjson"));
@@ -403,8 +439,9 @@ pub fn gen_c10(args: &Args) {
             json!({"here": here.t, "nl": nl.map(|x| x.t.to_vec()).unwrap_or_default(), "b": res_json(&b)}),
         ]));
     }
+    let session = session_flush(&mut w);
     let k = w.finish();
-    println!("{}", json!({"events": k, "policy_fired": fired}));
+    println!("{}", json!({"session": session, "events": k, "policy_fired": fired}));
 }
 
 // ------------------------------------------------------------------------------------------
@@ -412,6 +449,7 @@ pub fn gen_c10(args: &Args) {
 
 pub fn gen_c11(args: &Args) {
     let seed = args.num("seed", 1) as u64;
+    session_start(seed);
     let stride = args.num("stride", 1);
     let sites = args.num("sites", 1);
     let mut r = Rng::new(seed ^ 0xC11);
@@ -419,7 +457,7 @@ pub fn gen_c11(args: &Args) {
     let mut seconds_seen = std::collections::HashSet::new();
     for s in 0..sites {
         let site = if s == 0 {
-            Site { lat: 390_182, lon: -772_086, el: 0, gmt: -5 * 3600 }
+            Site { dlat: 0, lat: 390_182, lon: -772_086, el: 0, gmt: -5 * 3600 }
         } else {
             rand_site(&mut r, 550_000, 1)
         };
@@ -494,8 +532,9 @@ pub fn gen_c11(args: &Args) {
             }
         }
     }
+    let session = session_flush(&mut w);
     let k = w.finish();
-    println!("{}", json!({"events": k, "distinct_prayer_seconds": seconds_seen.len()}));
+    println!("{}", json!({"session": session, "events": k, "distinct_prayer_seconds": seconds_seen.len()}));
 }
 
 // ------------------------------------------------------------------------------------------
@@ -503,6 +542,7 @@ pub fn gen_c11(args: &Args) {
 
 pub fn gen_c12(args: &Args) {
     let seed = args.num("seed", 1) as u64;
+    session_start(seed);
     let n = args.num("n", 12000);
     let mut r = Rng::new(seed ^ 0xC12);
     let mut w = TraceWriter::create(&args.str("out", "c12.ndjson"));
@@ -597,6 +637,69 @@ pub fn gen_c12(args: &Args) {
             json!({"kind": kind, "key": key, "d": d, "a": res_json(&a), "b": res_json(&b), "p0": p.json()}),
         ]));
     }
+    let session = session_flush(&mut w);
     let k = w.finish();
-    println!("{}", json!({"events": k}));
+    println!("{}", json!({"session": session, "events": k}));
+}
+
+
+// ------------------------------------------------------------------------------------------
+// Boundary probes: the latitude at which an event stops existing (for a longitude, date and parameter
+// set) is located by bisection on the library's own validity output; inputs are then laid densely
+// around it - at 1e-6 degree steps (where acos-domain guards, tolerances and NaNs live) and at
+// 0.02 degree steps (where a displaced boundary shows against the oracle).
+
+fn valid_at(site: &Site, date: NaiveDate, p: &P, which: usize) -> bool {
+    raw_call(site, date, p).t[which] >= 0
+}
+
+/// returns sites around a validity boundary of entry `which` (0..7), or nothing if there is none
+pub fn boundary_probes(r: &mut Rng, date: NaiveDate, p: &P, which: usize, fine: i64, coarse: i64) -> Vec<Site> {
+    let lon = r.range(-1_800_000, 1_800_000);
+    let south = r.chance(1, 2);
+    let mk = |lat9: i64| -> Site {
+        // lat9 in 1e-9 degree
+        let lat = (lat9 as f64 / 1e5).round() as i64;
+        let s = if south { -1 } else { 1 };
+        Site { dlat: s * (lat9 - lat * 100_000), lat: s * lat, lon, el: 0, gmt: natural_gmt(lon) }
+    };
+    let mut p0 = p.clone();
+    p0.pol = 0;
+    let (mut lo, mut hi) = (30_000_000_000i64, 89_000_000_000i64);
+    let vlo = valid_at(&mk(lo), date, &p0, which);
+    let vhi = valid_at(&mk(hi), date, &p0, which);
+    if vlo == vhi {
+        return Vec::new();
+    }
+    while hi - lo > 2 {
+        let mid = (lo + hi) / 2;
+        if valid_at(&mk(mid), date, &p0, which) == vlo {
+            lo = mid;
+        } else {
+            hi = mid;
+        }
+    }
+    let mut v = Vec::new();
+    for j in -fine..=fine {
+        v.push(mk(lo + j * 1000)); // 1e-6 degree steps
+    }
+    for j in -(fine / 2)..=(fine / 2) {
+        v.push(mk(lo + j * 10_000)); // 1e-5 degree steps
+    }
+    for j in -coarse..=coarse {
+        if j != 0 {
+            v.push(mk(lo + j * 20_000_000)); // 0.02 degree steps
+        }
+    }
+    v
+}
+
+/// dates for boundary probes: random, plus January/February of the non-leap century years
+pub fn probe_date(r: &mut Rng) -> NaiveDate {
+    if r.chance(1, 4) {
+        let y = *r_pick(r, &[1700, 1800, 1900, 2100, 2200, 2300, 2000, 1600]);
+        ymd(y, r.range(1, 2) as u32, r.range(1, 28) as u32)
+    } else {
+        rand_date(r)
+    }
 }
